@@ -114,15 +114,29 @@ func main() {
 		fc.WriteHook = func(b []byte) {
 			mu.Lock()
 			defer mu.Unlock()
-			p := ansi.NewParser(&br{b: append([]byte(nil), b...)})
-			for seq := range p.Next() {
-				if _, ok := seq.(ansi.EOF); ok {
-					continue
+			// parse first (again when the Escape timer fired: a scheduling artefact, see
+			// hx.IsTimerEsc), then feed; the sequences are not handed back to the parser's pools
+			parse := func() (seqs []ansi.Sequence, timerEsc bool) {
+				p := ansi.NewParser(&br{b: append([]byte(nil), b...)})
+				for seq := range p.Next() {
+					if _, ok := seq.(ansi.EOF); ok {
+						continue
+					}
+					if hx.IsTimerEsc(seq) {
+						timerEsc = true
+					}
+					seqs = append(seqs, seq)
 				}
+				return
+			}
+			seqs, timerEsc := parse()
+			for n := 0; n < hx.TimerEscRetries && timerEsc; n++ {
+				seqs, timerEsc = parse()
+			}
+			for _, seq := range seqs {
 				if o, m := emu.Feed(seq); o != 0 && feedProblem == "" {
 					feedProblem = fmt.Sprintf("outcome %d on %v: %s", o, seq, m)
 				}
-				p.Finish(seq)
 			}
 			if rep := emu.Replies(); len(rep) > 0 {
 				fc.Inject(rep)
